@@ -14,7 +14,7 @@ import (
 func main() {
 	r := ev.Start("C03", "exploration",
 		"random block trees x op sequences with heavy pool traffic (submissions of other branches' transactions, own blocks, peer blocks via Play and via confirm+Walk, reorganisations "+
-			"returning transactions to the pool) + conflict families (double spend, key w/w, r/w, w/r, r/r, out-of-order chains, diamonds, stale-after-write) and hostile variants; "+
+			"returning transactions to the pool, peer blocks carrying conflicting / inadmissible transactions) + conflict families (double spend, key w/w, r/w, w/r, r/r, out-of-order chains, diamonds, stale-after-write) and hostile variants; "+
 			"every DoTx result is compared both ways with the admission predicted by a statement-level model of chain(tip)+pool, and after every op the pool must be a conflict-free "+
 			"sequential extension of the model state; case = one history, non-trivial = had an undo, a refused and an admitted family member")
 	defer sn.CleanupScratch()
@@ -52,6 +52,13 @@ func main() {
 				ps = hist.ModelAuditor(s, hist.Op{})
 			}
 			return ps
+		case 3:
+			// a peer's block carrying a conflict / an inadmissible transaction must be refused
+			_, ps := s.BlockAttempt(rng, hist.BlockClasses[rng.Intn(len(hist.BlockClasses))])
+			if len(ps) == 0 {
+				ps = hist.ModelAuditor(s, hist.Op{})
+			}
+			return ps
 		}
 		return nil
 	})
@@ -64,6 +71,7 @@ func main() {
 	}
 	r.Floor("submit.predicted", 200)
 	r.Floor("op.play", 100)
+	r.Floor("blockattempt.played", 60)
 	r.Floor("pool.admitted", 300)
 	r.Assume("the model decides admissibility from token inputs and key versions only; signatures / ACL / contract re-execution are C07, C11, C09")
 	r.Finish()
